@@ -244,7 +244,8 @@ use crate::ResampleState;
 struct Sampler<'a, R: Resampler> {
     resampler: &'a mut R,
     resample_state: <R as Resampler>::State,
-    timestamp_sum: u64,
+    // u128: a bucket of timestamps close to u64::MAX must not overflow
+    timestamp_sum: u128,
     sampled: usize,
 
     bucket_size: usize,
@@ -273,12 +274,13 @@ impl<'a, R: Resampler> Sampler<'a, R> {
 
     fn process(&mut self, ts: Timestamp, payload: &[u8]) {
         let item = self.resampler.decode_payload(payload);
-        self.timestamp_sum += ts;
+        self.timestamp_sum += u128::from(ts);
         self.resample_state.add(item);
         self.sampled += 1;
         if self.sampled >= self.bucket_size {
+            let mean = self.timestamp_sum / self.bucket_size as u128;
             self.timestamps
-                .push(self.timestamp_sum / self.bucket_size as u64);
+                .push(u64::try_from(mean).expect("mean of u64s fits an u64"));
             self.data.push(self.resample_state.finish(self.bucket_size));
             self.timestamp_sum = 0;
             self.sampled = 0;
